@@ -76,6 +76,21 @@ CmpFrom(prop, u, r, d, k, fields) ==
   ELSE LET f == fields[k] IN
        If(Field(r, f) # Field(d, f), Mis(prop, "differs:" \o f, u, r, Field(d, f), Field(r, f))) \o CmpFrom(prop, u, r, d, k + 1, fields)
 
+\* the property that owns an observed field (a step of a history that differs from the fresh
+\* instance violates C12 and the property that states what that field must be)
+Owner(f, opt) ==
+  IF opt \in {"n", "ni", "ns", "nis"} THEN "C07"
+  ELSE CASE f = "ok" -> "C01" [] f = "pn" -> "C13" [] f = "tk" -> "C03" [] f \in {"et", "ms"} -> "C11"
+         [] f = "ex" -> "C04" [] f \in {"as", "pr"} -> "C05" [] OTHER -> "C07"
+RECURSIVE CmpOwned(_, _, _, _, _)
+CmpOwned(u, r, d, k, fields) ==
+  IF k > Len(fields) THEN <<>>
+  ELSE LET f == fields[k] IN
+       (IF Field(r, f) # Field(d, f)
+        THEN <<Mis("C12", "differs:" \o f, u, r, Field(d, f), Field(r, f)),
+               Mis(Owner(f, u.opt), "reuse-differs:" \o f, u, r, Field(d, f), Field(r, f))>>
+        ELSE <<>>) \o CmpOwned(u, r, d, k + 1, fields)
+
 \* index of the run with the same (i, c, h, s) in unit d, or 0.  Units emit runs in the same
 \* order; an inlined unit skips plan entries marked skipi, which come last in the plan.
 FindRun(d, r, k) ==
@@ -108,7 +123,7 @@ Relative(sc, units, du, u, k) ==
   LET r == u.runs[k] pl == sc.plan[r.c] IN
   IF u.opt # "" /\ r.h > 0 THEN   \* reuse of an optimised / -noast parser: against its own fresh run
      LET S == {j \in 1..Len(u.runs) : u.runs[j].i = r.i /\ u.runs[j].c = r.c /\ u.runs[j].h = 0} IN
-     IF S = {} THEN <<>> ELSE CmpFrom("C12", u, r, u.runs[CHOOSE j \in S : TRUE], 1, <<"ok", "pn", "tk", "et", "lg">>)
+     IF S = {} THEN <<>> ELSE CmpOwned(u, r, u.runs[CHOOSE j \in S : TRUE], 1, <<"ok", "pn", "tk", "et", "lg">>)
   ELSE IF u.opt # "" THEN
      (IF du = <<>> THEN <<>> ELSE
       LET j == FindRun(du[1], r, k) IN
@@ -119,7 +134,12 @@ Relative(sc, units, du, u, k) ==
            ELSE CmpFrom("C02", u, r, d, 1, IF r.ok /\ d.ok THEN <<"ok", "pn", "tk">> ELSE <<"ok", "pn">>))
   ELSE IF r.h > 0 THEN   \* a step of a history on a long-lived instance against the fresh instance
      LET S == {j \in 1..Len(u.runs) : u.runs[j].i = r.i /\ u.runs[j].c = r.c /\ u.runs[j].h = 0} IN
-     IF S = {} THEN <<>> ELSE CmpFrom("C12", u, r, u.runs[CHOOSE j \in S : TRUE], 1, CmpFields)
+     (IF S = {} THEN <<>> ELSE CmpOwned(u, r, u.runs[CHOOSE j \in S : TRUE], 1, CmpFields)) \o
+     \* the same history step with memoisation disabled against the memoising instance
+     (IF pl.memo \/ pl.size # 0 \/ pl.u # "uint32" THEN <<>> ELSE
+      LET c0 == DefaultPlanIdx(sc, pl)
+          T == {j \in 1..Len(u.runs) : u.runs[j].i = r.i /\ u.runs[j].c = c0 /\ u.runs[j].h = r.h /\ u.runs[j].s = r.s} IN
+      IF c0 = 0 \/ T = {} THEN <<>> ELSE CmpFrom("C06", u, r, u.runs[CHOOSE j \in T : TRUE], 1, CmpFields))
   ELSE IF ~IsDefaultPlan(pl) THEN
      LET c0 == DefaultPlanIdx(sc, pl)
          S == {j \in 1..Len(u.runs) : u.runs[j].i = r.i /\ u.runs[j].c = c0 /\ u.runs[j].h = 0} IN
